@@ -15,6 +15,7 @@ import TlxVerif.Proofs.C01Copy
 import TlxVerif.Proofs.C01EraseE
 import TlxVerif.Proofs.C01EraseG
 import TlxVerif.Proofs.C01Bulk
+import TlxVerif.Proofs.C01Verify
 namespace TlxVerif.C02
 open TlxVerif.C01
 
@@ -211,11 +212,26 @@ theorem inv_bulk_load (p : Params K) (pv : p.Valid) (sw : StrictWeak p.lt) (es :
       l.leafAlloc = t.nLeaves ∧ l.innerAlloc = t.nInner ∧ l.leafFree = 0 ∧ l.innerFree = 0 :=
   bulkLoad_ok p pv sw es hs
 
--- OPEN: verify_characterised — a transliteration `verifyB` of `verify()/verify_node()/verify_leaflinks()` with
---   `verifyB t = true ↔ TreeInv p t` (so that the C++ self-check is characterised, not only used as an oracle).
---   The harness runs the real `verify()` and an independent recomputation of the same conditions after every
---   mutating call; the Lean-side characterisation is not written.
+/-! ## the public self-check -/
+
+/-- `verify()` (transliterated as `verifyB`: `verify_node` with its min/max-key propagation, the fill /
+order / level / separator checks and the comparison of the recount with `stats_`) **passes on every state
+that satisfies the invariant** -/
+theorem verify_passes (p : Params K) (pv : p.Valid) (sw : StrictWeak p.lt) (t : Tree K V) (ht : TreeInv p t) :
+    verifyB p t = true :=
+  verify_of_inv p pv sw t ht
+
+/-- the property's first sentence over the model: **after every public mutating operation of every history
+the tree's self-check passes** -/
+theorem verify_after_every_history (p : Params K) (pv : p.Valid) (sw : StrictWeak p.lt) (ops : List (Op K V)) :
+    ∃ t lg, runOps p ({} : Tree K V) {} ops = some (t, lg) ∧ verifyB p t = true := by
+  obtain ⟨t, lg, h1, h2, _⟩ := inv_all_histories p pv sw ops {} {} (inv_init p) (by simp [Balanced, Tree.nLeaves, Tree.nInner])
+  exact ⟨t, lg, h1, verify_passes p pv sw t h2⟩
+
+-- OPEN: verify_characterised — the converse `verifyB p t = true → TreeInv p t` (for representable states:
+--   `slotuse ≤ slotmax`, `slotuse + 1` children).  `verify()` does not check the upper fill bounds (arrays
+--   cannot overflow in the C++), so the converse needs those as hypotheses; not proved.
 def verify_characterised_statement (p : Params K) : Prop :=
-  ∃ verifyB : Tree K V → Bool, ∀ t, verifyB t = true ↔ TreeInv p t
+  ∀ (t : Tree K V), (∀ r, t.root = some r → ∃ ml mi, ShapeTop p ml mi r.level r) → verifyB p t = true → TreeInv p t
 
 end TlxVerif.C02
